@@ -228,6 +228,13 @@ def run(ctx):
                 multi["wn_cross"] += int(kv.get("crossnice") == "1")
                 multi["wn_lam_only"] += int(kv.get("crosslam") == "1" and kv.get("crossnice") != "1")
                 multi["wn_not_lam"] += int(kv.get("crosslam") != "1")
+                multi["wn_dyn"] += int(kv.get("dynnice") == "1")
+                multi["wn_ghost"] += int(kv.get("ghost") == "1")
+                for key in ("defsniced", "refsup", "closure", "crossnice", "injtie"):
+                    multi["wn_fail_" + key] += int(kv.get(key) != "1")
+                multi["wn_cross_but_not_dyn"] += int(kv.get("crossnice") == "1" and kv.get("dynnice") != "1")
+                if kv.get("dynnice") == "1" and kv.get("ghost") != "1":
+                    report_corr(cid, kv, "premise dynNice holds on this real layer table but the model's run violates the stack discipline (contradicts merge_well_nested_run_partial: driver and theorem disagree)", "dynNice=>ghost-run")
             if kv.get("refsup") != "1":
                 report_corr(cid, kv, "layer table of a real case violates refsUp (hypothesis of merge_multi_wellformed)", "refsUp")
             if kv.get("defsin") != "1":
@@ -363,12 +370,15 @@ def run(ctx):
                                  "how": "html + line offsets from ts_highlight_buffer_* vs the model renderer fed with the Rust API's events"},
         "well_nested_premise_on_real_multi_layer_cases": {
             "multi_layer_cases": multi["wn_multi"],
-            "crossNice_holds(laminar+oriented start ties over span captures)": multi["wn_cross"],
-            "excluded_start_tie_wrong_orientation(real stream itself not well nested: judge skips)": multi["wn_lam_only"],
-            "excluded_not_laminar": multi["wn_not_lam"],
+            "dynNice_holds(full premise of merge_well_nested_dynamic_partial / _run_partial: proved, layers created during the run included)": multi["wn_dyn"],
+            "sub_premise_fails": {"defsNiceD": multi["wn_fail_defsniced"], "refsUp": multi["wn_fail_refsup"], "closureNodup": multi["wn_fail_closure"],
+                                  "crossNice": multi["wn_fail_crossnice"], "injTieOkP": multi["wn_fail_injtie"]},
+            "crossNice_holds_but_dynNice_fails": multi["wn_cross_but_not_dyn"],
+            "crossNice_fails:start_tie_wrong_orientation(real stream itself not well nested: judge skips)": multi["wn_lam_only"],
+            "crossNice_fails:not_laminar": multi["wn_not_lam"],
             "static_layers(no injection created during the run)": multi["wn_static"],
-            "staticNice_holds(full premise of merge_well_nested_partial: proved)": multi["wn_premise"],
-            "note": "the theorem is proved for static layers only; crossNice_holds is the fraction it would cover once dynamic layers are proved"},
+            "staticNice_holds(premise of the static corollary merge_well_nested_partial)": multi["wn_premise"],
+            "model_run_passes_stack_discipline(ghost run, with or without the premise)": multi["wn_ghost"]},
         "correspondence_merge_full": {"compared": multi["full_compared"], "equal": multi["full_equal"]},
         "correspondence_merge_locals": {"compared": multi["locals_compared"], "equal": multi["locals_equal"]},
         "correspondence_intersect_ranges": {"compared": multi["ir_compared"], "equal": multi["ir_equal"], "of_which_against_the_real_private_function": multi["ir_real"],
